@@ -440,9 +440,13 @@ func (u *upstream) ServeDNS(ctx context.Context, rw dnsserver.ResponseWriter, re
 	s.yield()
 	ri := agd.MustRequestInfoFromContext(ctx)
 	t := s.trace(ctx)
+	// Snapshot outside the lock: under a seeded defect the pooled RequestInfo
+	// may be torn and the snapshot may panic; the trace mutex must not stay
+	// locked then.
+	reqCopy, sn := req.Copy(), snapshotRI(ri)
 	t.mu.Lock()
-	t.UpstreamReqs = append(t.UpstreamReqs, req.Copy())
-	t.UpstreamRI = append(t.UpstreamRI, snapshotRI(ri))
+	t.UpstreamReqs = append(t.UpstreamReqs, reqCopy)
+	t.UpstreamRI = append(t.UpstreamRI, sn)
 	t.mu.Unlock()
 	resp, err := s.Opts.Upstream(ctx, req, ri)
 	if err != nil {
